@@ -157,7 +157,7 @@ def run_full_case(a):
             t = {"Z": (F.one, F.one, F.zero), "010": (F.zero, F.one, F.zero),
                  "000": (F.zero, F.zero, F.zero)}[infrep or "Z"]
             return tuple(cfg.lib(c) for c in t)
-        return lib.opt_pt(cfg, Pm, el(lam) if lam is not None else None)
+        return lib.opt_pt(cfg, Pm, el(lam) if lam is not None else None, bool(a.get("fqc")))
 
     nrm = (lambda X: lib.opt_norm(cfg, X)) if fam == "opt" else (lambda X: lib.ref_norm(cfg, X))
     Pm, Qm = tup(a.get("P")), tup(a.get("Q"))
@@ -256,6 +256,30 @@ def task_full_pairs(a, env):
                         r.transitions += 1
                         r.dk.add((curve, group, fam, op, lp, lq, rel))
                         _cmp(r, "C07:%s:%s:%s:%s" % (modname, group, op, rel), args, exp, got)
+        if fam == "opt" and group == "E2":
+            # coordinates whose Fp2 coefficients are FQ objects instead of ints (a constructor form
+            # the optimized classes accept and keep): same results required
+            for (lp, Pm) in dom:
+                if Pm is None:
+                    continue
+                for op in ("double", "neg", "is_on_curve", "is_inf"):
+                    args = {"curve": curve, "group": group, "fam": fam, "op": op, "P": _l(Pm),
+                            "lamP": _l(lams[0]), "fqc": True}
+                    exp, got = run_full_case(args)
+                    r.ev += 1
+                    _cmp(r, "C07:%s:%s:%s:fq-coefficients" % (modname, group, op), args, exp, got)
+                for (lq, Qm) in dom[1:5]:
+                    for op in ("add", "eq"):
+                        args = {"curve": curve, "group": group, "fam": fam, "op": op, "P": _l(Pm), "Q": _l(Qm),
+                                "lamP": _l(lams[0]), "lamQ": _l(lams[1]), "fqc": True}
+                        exp, got = run_full_case(args)
+                        r.ev += 1
+                        _cmp(r, "C07:%s:%s:%s:fq-coefficients" % (modname, group, op), args, exp, got)
+                args = {"curve": curve, "group": group, "fam": fam, "op": "multiply", "P": _l(Pm), "n": 11,
+                        "lamP": _l(lams[0]), "fqc": True}
+                exp, got = run_full_case(args)
+                r.ev += 1
+                _cmp(r, "C07:%s:%s:multiply:fq-coefficients" % (modname, group), args, exp, got)
         if fam == "opt":
             # infinity representatives at full size
             for inf in ("Z", "010", "000"):
